@@ -92,7 +92,11 @@ def one(rng, viol, cfgkey):
     except IndexError:
         if any(len(c) for c in REC["cands"]):
             bad("C18.proposal_is_a_surviving_candidate", what="IndexError although candidates survived the filter", survivors=[int(len(c)) for c in REC["cands"]])
+        else:
+            bad("C09.no_internal_error", exc="IndexError in ESSearch.__call__: every ES candidate was removed by the filter", **{"class": "es-all-candidates-infeasible"})
         return
+    if np.size(us) == 0:
+        return  # no survivor: an empty search set is handed back (the search step skips the evaluation)
     C = np.vstack([c for c in REC["cands"]]) if REC["cands"] else np.zeros((0, D))
     Z = np.concatenate(REC["z"]) if REC["z"] else np.zeros(0)
     if len(C) != len(Z):
